@@ -191,6 +191,11 @@ def grid(ctx):
             if name.startswith("yaml:") and countries and name.split(":")[1] not in seen:
                 seen.add(name.split(":")[1])
                 jobs.append((countries[0], name, o))
+        # single-option variations of the SHIPPED simulations themselves: the horizon (a `settings` value of the YAML files), for their designated country
+        for name, o, countries in presets:
+            if name.startswith("yaml:") and countries:
+                for nm_ in (48, 84):
+                    jobs.append((countries[0], "%s+NMONTHS=%d" % (name, nm_), dict(o, NMONTHS=nm_)))
         ms = [p for p in presets if p[0].startswith("manuscript:")]
         for p in ctx.rng.sample(ms, min(3, len(ms))):
             jobs.append((ctx.rng.choice(isos), p[0], p[1]))
